@@ -1379,8 +1379,19 @@ func runOracles(h *history, r *runResult) []failure {
 		return nil
 	}
 	if len(h.WriteFaults) > 0 {
-		// a disk that is full now and then: only the retention oracle (segments, Directory, URL table stay bounded)
+		// a disk that is full now and then: the retention oracle (segments, Directory, URL table stay bounded) - and
+		// when every Write returned nil all the same (the faults fell on calls that were never made, or an error
+		// was swallowed), the write sequence is one "that all succeed" and C01 applies to what is advertised
 		o.c18Retention()
+		silent := true
+		for _, rc := range r.results {
+			if rc != 0 {
+				silent = false
+			}
+		}
+		if silent {
+			o.c01()
+		}
 		return o.fails
 	}
 	if len(h.Faults) > 0 {
